@@ -122,7 +122,7 @@ TemplateFunction Model::getDefinition(SymRef sr) const {
             } while (not isFormalArgNameFree(logic, name, argSort));
             formalArgs[i] = logic.mkVar(argSort, name.c_str());
         }
-        return TemplateFunction(symName, formalArgs, logic.getSym(sr).rsort(),
+        return TemplateFunction(logic.protectName(sr), formalArgs, logic.getSym(sr).rsort(),
                                 logic.getDefaultValuePTRef(logic.getSym(sr).rsort()));
     }
 }
